@@ -187,3 +187,4 @@ end Inj.Tie
 #print axioms Inj.Tie.T_x86_install_refines
 #print axioms Inj.Tie.T_x86_drop
 #print axioms Inj.Tie.T_x86_drop_refines
+#print axioms Inj.Tie.T_x86_clear_cache
